@@ -81,7 +81,7 @@ EXTRA = {
  "C10": "with-hashes of six Go map types incl. map[interface{}]interface{} and *map.",
  "C11": "An eleventh use: defined / imported at the top level of an extending template and called in its block; a third of the cases spelled wide, a third tight.",
  "C12": "37 template names, incl. file names containing %, {, }} and #.",
- "C13": "Long values aligned to every offset within 12 bytes of 2^6..2^13 (thorough: 2^20); scheme prefixes and partial escape introducers in the boundary alphabet.",
+ "C13": "Long values aligned to every offset within 12 bytes of 2^6..2^13 (thorough: 2^17); scheme prefixes and partial escape introducers in the boundary alphabet.",
  "C14": "Hashes directly in front of closing delimiters, inside brackets and arguments, and holding interpolated strings (closing braces may touch).",
  "C15": "Float carriers for every integer the float holds exactly (also beyond 2^53).",
  "C17": "Every writer fault also through a destination with WriteString; ten kinds of failing sub-expression.",
